@@ -113,8 +113,29 @@ func customCase(c *Ctx, ki int, spec, env string, argv []string) {
 			envOK = env != "FAIL"
 		}
 	}
-	if strings.Join(declLog[envTarget], " ") != strings.Join(wantDecl, " ") || len(declLog[1-envTarget]) != 0 {
-		c.Violation("C19", key+" (declaration)", cs(), "at declaration: "+strings.Join(wantDecl, " "), fmt.Sprintf("option: %v argument: %v", declLog[0], declLog[1]))
+	// The property does not fix the call sequence at declaration time (only that environment content arrives
+	// through Set); judged here: the value without an environment variable is not touched, and every Set
+	// argument is the variable's content or one of its comma-separated, trimmed elements - nothing invented.
+	_ = wantDecl
+	allowed := map[string]bool{"Set(" + env + ")": true, "Clear": true}
+	for _, e := range strings.Split(env, ",") {
+		allowed["Set("+strings.TrimSpace(e)+")"] = true
+	}
+	badDecl := len(declLog[1-envTarget]) != 0
+	sets := 0
+	for _, call := range declLog[envTarget] {
+		if !allowed[call] || (env == "" && call != "") {
+			badDecl = true
+		}
+		if strings.HasPrefix(call, "Set(") {
+			sets++
+		}
+	}
+	if env != "" && sets == 0 {
+		badDecl = true
+	}
+	if badDecl {
+		c.Violation("C19", key+" (declaration)", cs(), "at declaration only the environment content is delivered, through Set", fmt.Sprintf("option: %v argument: %v", declLog[0], declLog[1]))
 		return
 	}
 	// ---- run phase, against the reference matcher
